@@ -11,7 +11,7 @@ func init() {
 		c.Add(&Job{Pkg: lintPkg, Func: "VerifC13FromString", MustCover: []string{"declared source", "unknown source"}})
 		c.Add(&Job{Pkg: lintPkg, Func: "VerifC13UnmarshalJSON", MustCover: []string{"declared source", "unknown source"}, Tune: func(cf *Config) { cf.StrConvMax = 16 }})
 		c.Add(&Job{Pkg: lintPkg, Func: "VerifC13NamesSelectable", MustCover: []string{"names selectable"}})
-		c.Add(&Job{Pkg: rootPkg, Func: "VerifC13RealRegistry", MustCover: []string{"real registry"}, NoReplay: true})
+		c.Add(&Job{Pkg: rootPkg, Func: "VerifC13RealRegistry", MustCover: []string{"real registry"}, NoReplay: true, Tune: func(cf *Config) { cf.Unwind = 100000 }})
 		c.Add(&Job{Pkg: lintPkg, Func: "VerifC13SourceList", MustCover: []string{"list with unknown item", "list of known items"}, Tune: func(cf *Config) { cf.Bounds["param:c13.items"] = items }})
 	}
 	checks["C14"] = func(c *Check) {
